@@ -1,5 +1,5 @@
 #!/bin/bash
-# run_seeded.sh [name-glob]: apply every archived seeded change to /repo in turn, run the checks recorded as catching it (quick tier),
+# run_seeded.sh [name-glob]: apply every archived seeded change to /repo in turn, run the checks recorded as catching it (in the tier recorded: quick, for one change thorough),
 # undo it, and report whether each is still reported (exit 1 + VIOLATION line).  /repo must be clean.
 cd /verif
 glob=${1:-*}
@@ -12,7 +12,8 @@ for d in seeded/$glob/; do
   git -C /repo apply $d/patch.diff
   res=""
   for c in $checks; do
-    ./check $c --tier quick > /tmp/seeded_$name_$c.out 2>&1; rc=$?
+    tier=$(python3 -c "import json;print(json.load(open('$d/meta.json'))['checks_run_against_it']['results']['$c'].get('tier','quick'))")
+    ./check $c --tier $tier > /tmp/seeded_$name_$c.out 2>&1; rc=$?
     n=$(grep -c '^VIOLATION' /tmp/seeded_$name_$c.out)
     res="$res $c:rc=$rc,viol=$n"
     if [ $rc -ne 1 ] || [ $n -lt 1 ]; then fail=1; res="$res(MISSED)"; fi
